@@ -8,8 +8,111 @@ import json
 import sys
 
 
+def dg(x) -> int:
+    import hashlib
+    return int.from_bytes(hashlib.sha256(repr(x).encode()).digest()[:7], "big")
+
+
+def hashseed_batch(job):
+    """Seeded operations whose seed derivation or bookkeeping involves names / text ids / sets / dicts, run in this
+    interpreter process (the parent varies PYTHONHASHSEED).  Returns {label: list of integers}."""
+    import os
+    import warnings
+
+    import c18_lib as L
+
+    L.setup()
+    warnings.simplefilter("ignore")
+    import numpy as np
+    import lenskit.random as LR
+    import lenskit.splitting as S
+    from lenskit.data import ItemList, RecQuery
+    from lenskit.pipeline import Component, PipelineBuilder, predict_pipeline, topn_pipeline
+    from lenskit.splitting.holdout import SampleFrac, SampleN
+    from lenskit.training import Trainable, TrainingOptions
+
+    out = {}
+    seed = job["seed"]
+    ds = L.dataset(job["dataset"])
+
+    # 1. the seeds Pipeline.train hands to named probe components
+    log = []
+
+    class Probe(Component[int], Trainable):
+        config: None
+        label = "?"
+
+        def train(self, data, options=TrainingOptions()):
+            r = options.rng
+            key = [int(x) for x in r.spawn_key] if isinstance(r, np.random.SeedSequence) else [-1]
+            log.append((self.label, key, [int(x) for x in options.random_generator().integers(0, 2**31, 3)]))
+
+        def __call__(self) -> int:
+            return 0
+
+    for pi, names in enumerate(job["pipelines"]):
+        b = PipelineBuilder()
+        for nm in names:
+            c = Probe()
+            c.label = nm
+            b.add_component(nm, c)
+        p = b.build()
+        log.clear()
+        for sk in job["seed_kinds"]:
+            p.train(ds, TrainingOptions(rng=seed if sk == "int" else (np.random.SeedSequence(seed) if sk == "seedseq" else [seed, 5])))
+        out[f"pipeline-seeds:{pi}:{'/'.join(names)}"] = [dg(x) for x in log]
+
+    # 2. real models trained through the standard pipelines
+    for label, kind, cfg, builder in job["std_pipelines"]:
+        sc = L.make(kind, cfg)
+        p = topn_pipeline(sc, predicts_ratings=True) if builder == "topn" else predict_pipeline(sc)
+        p.train(ds, TrainingOptions(rng=seed))
+        from props.c18 import pipe_components
+        vals = []
+        for n, c, t in pipe_components(p):
+            if t:
+                vals += [dg((n, k, v)) for k, v in sorted(L.store_of(c).items()) if not k.startswith("_")]
+        out[f"pipeline-train:{label}"] = vals
+
+    # 3. models trained directly on data with text identifiers
+    for label, kind, cfg in job["models"]:
+        c = L.make(kind, cfg)
+        c.train(ds, TrainingOptions(rng=seed))
+        out[f"train:{label}"] = [dg((k, v)) for k, v in sorted(L.store_of(c).items()) if not k.startswith("_")]
+
+    # 4. user-derived ranker seeds with text user ids
+    from lenskit.basic.random import RandomSelector, SoftmaxRanker
+    from lenskit.stochastic import StochasticTopNRanker
+    items = ItemList(item_ids=np.array(job["rank_items"], dtype=np.int64), scores=np.arange(len(job["rank_items"]), dtype=np.float32) / 3.0)
+    for cls in (RandomSelector, SoftmaxRanker, StochasticTopNRanker):
+        rk = cls(rng=(seed, "user"), n=4)
+        out[f"ranker:{cls.__name__}"] = [dg(tuple(rk(items=items, query=RecQuery(user_id=u)).ids().tolist())) for u in job["rank_users"]]
+    out["derivable_rng"] = [int(x) for u in job["rank_users"] for x in LR.derivable_rng((seed, "user"))(RecQuery(user_id=u)).integers(0, 2**62, 2)]
+    out["make_seed"] = [int(x) for u in job["rank_users"] for x in LR.make_seed(seed, u).generate_state(2)]
+
+    # 5. splitters and samplers on the text-id data
+    def canon(sp):
+        test = sorted((repr(k), tuple(sorted(map(str, il.ids().tolist())))) for k, il in sp.test)
+        tr = sp.train.interaction_matrix(format="pandas", original_ids=True)
+        return dg((test, sorted(zip(map(str, tr["user_id"]), map(str, tr["item_id"])))))
+    nu = ds.user_count
+    out["split:crossfold_users"] = [canon(s) for s in S.crossfold_users(ds, 3, SampleN(1, rng=seed + 1), rng=seed)]
+    out["split:sample_users:oversized"] = [canon(s) for s in S.sample_users(ds, nu // 2 + 1, SampleFrac(0.5, rng=seed + 1), repeats=2, rng=seed)]
+    out["split:sample_users:disjoint"] = [canon(s) for s in S.sample_users(ds, max(1, nu // 4), SampleN(1, rng=seed + 1), repeats=2, rng=seed)]
+    out["split:crossfold_records"] = [canon(s) for s in S.crossfold_records(ds, 3, rng=seed)]
+    out["split:sample_records:oversized"] = [canon(s) for s in S.sample_records(ds, ds.interaction_count // 2 + 1, repeats=2, rng=seed)]
+    m = ds.interactions().matrix()
+    out["sample_negatives"] = [int(x) for x in np.asarray(m.sample_negatives(np.arange(min(6, nu), dtype=np.int32), n=2, weighting="popular",
+                                                                             rng=np.random.default_rng(seed))).ravel()]
+    out["_hashseed"] = [dg(os.environ.get("PYTHONHASHSEED", "")), hash("lenskit") & 0xFFFF]
+    return out
+
+
 def main():
     job = json.loads(sys.stdin.read())
+    if job.get("mode") == "hashseed":
+        json.dump(hashseed_batch(job), sys.stdout)
+        return
     import c18_lib as L
 
     L.setup(limit_threads=False)
